@@ -22,7 +22,7 @@ R0 == [exc |-> FALSE, left |-> "none", body |-> <<>>, right |-> FALSE,
        important |-> FALSE, tag |-> "", badfilter |-> FALSE, ghide |-> FALSE,
        mkind |-> "none", mval |-> "", prio |-> "none"]
 \* mkind \in {"none","redirect","redirect-rule","csp","removeparam"}; mval = resource
-\* name / directive / parameter; prio (redirect only) \in {"none","0","1","10","-1","x"}
+\* name / directive / parameter; prio (redirect only): "none" or the text after the last ':' (see PrioVal / MalformedPrio)
 
 Pat(r) == [left |-> r.left, body |-> r.body, right |-> r.right]
 
@@ -171,10 +171,16 @@ Live(L, h, T) ==
 \* C13: redirect choice.  Res: set of resources
 \*   [name, aliases (set), redirectable (BOOLEAN), perm (Nat)]
 
+\* the suffix after the last ':' is a priority when it parses as a 32-bit signed integer (Rust's i32 FromStr:
+\* optional sign, decimal digits, no blanks); only the ORDER of priorities matters, so the two ends of the
+\* i32 range are represented by +-1000000
 PrioVal(p) == CASE p = "none" -> 0 [] p = "0" -> 0 [] p = "1" -> 1 [] p = "10" -> 10
-                [] p = "-1" -> 0 - 1 [] OTHER -> 0
-\* a malformed priority suffix is part of the resource name
-ResName(r) == IF r.prio = "x" THEN r.mval \o ":x" ELSE r.mval
+                [] p = "-1" -> 0 - 1 [] p = "+1" -> 1 [] p = "01" -> 1 [] p = "-0" -> 0
+                [] p = "-2147483648" -> 0 - 1000000 [] p = "2147483647" -> 1000000
+                [] p = "-2147483647" -> 0 - 999999 [] OTHER -> 0
+\* a malformed priority suffix (not an i32: letters, empty, a blank, out of range) is part of the resource name
+MalformedPrio(p) == p \in {"x", "", "2147483648", "-2147483649", "1 ", "1.0"}
+ResName(r) == IF MalformedPrio(r.prio) THEN r.mval \o ":" \o r.prio ELSE r.mval
 
 \* A resource store is built by adding resources one at a time; an addition whose name or one of
 \* whose aliases is already known (as a name or as an alias) is rejected and changes nothing.
